@@ -65,6 +65,11 @@ CLAIMED = {
     note=TB + "idle_time compared exactly; idle_time_ratio against round(idle/total,2) within 0.006 (float division not modelled). The lookup of the launch call's start goes through index_correlation as in the code.",
     technique="Lean 4 proof (pairwise order argument, telescoping sum, case analysis) + model/implementation correspondence",
     design="7/C06"),
+  "C13": dict(
+    text="Lean 4 theorems over a model of the whole CallGraph construction (per-thread stacks via the C03 model, device children, main/backward linking, depth, height, kernel aggregation, normalisation): C13_kinfo_is_fold_over_descendants (the DFS aggregate equals the aggregate over the device activities among the descendants; mutual structural induction), C13_kernel_attributes (the five reported numbers are count / summed duration / span / earliest start / latest end, and (0,0,0,-1,-1) when there are none; earliest and latest are attained and bound all), C13_height_rule / heightL_spec / C13_childless_host_height, C13_depth_rule, C13_device_child_of_launch, C13_reparent_rule (only first-layer backward nodes within the annotation's span move, and they move beneath it). Tied to CallGraph(trace).trace_data.get_trace(rank) on traces loaded through TraceAnalysis (1-2 host threads, with/without backward annotation, several ranks) by a differential run on all eight stack columns and a Python oracle phrased through parent pointers.",
+    note=TB + "Depends on C03 (per-thread parents) and C02 (links). The bridge from the node table to the tree (mkT) is executable model code validated by the correspondence, not a theorem. Children order is not compared.",
+    technique="Lean 4 proof (mutual structural induction on the call tree; fold lemmas) + model/implementation correspondence",
+    design="7/C13"),
   "C14": dict(
     text="Lean 4 theorems for any marker list sorted by (ts ascending, queue descending): C14_queue_last_of_instant (after the last row of an instant the series equals launches-so-far minus starts-so-far over linked pairs), C14_queue_ends_zero, C14_queue_nonneg (no row, including transient rows inside an instant, is negative when no activity starts before its launch), C14_bw_last_of_instant / C14_bw_active_nonneg (bandwidth series = sum of bandwidths of active copies, zero-length copies widened to one unit), C14_counter_events (counter events reproduce the series at ts + min_ts). Tied to get_queue_length_time_series, get_memory_bw_time_series and generate_trace_with_counters by a differential run and a Python oracle.",
     note=TB + "Bandwidths are generated as dyadic rationals so float accumulation is exact; IEEE accumulation of arbitrary values and non-negativity of transient bandwidth rows inside an instant are exercised, not proved (partial for that clause).",
